@@ -8,7 +8,7 @@ PROP = {
     "jobs": [
         job("authgate", "core", "./internal/integration_tests/", "integration_tests",
             [KIT, "harness/core/internal/integration_tests/c01_test.go"], "^TestVerifC01",
-            ["c01-auth-gate", "c01-concurrent-auth"], race=False, timeout_quick=300, timeout_thorough=3600),
+            ["c01-auth-gate", "c01-concurrent-auth", "c01-generations"], race=False, timeout_quick=300, timeout_thorough=3600),
     ],
     "min_events": 200,
     "rule": ("PRNG scripts over 2..6 concurrent raw connections to one real server (virtual time, one-way latency "
@@ -22,7 +22,10 @@ PROP = {
              "attempt) reach the outbound. concurrent-auth (real time on simnet, because a request waiting on the handler's "
              "mutex would stop a bubble's clock): a second/third auth request is sent while the authenticator still "
              "holds the first; verdicts by log order only: one acceptance per connection, no Authenticate after it, "
-             "one Connect event, nothing proxied before it. Non-trivial = script mixes auth actions with proxy actions; distinct = "
+             "one Connect event, nothing proxied before it. generations (bubble, GOMAXPROCS(1)): 3..6 rounds on one server, "
+             "each: 1..3 connections authenticate, proxy and close; after they are gone 1..3 fresh connections that never "
+             "authenticate fire streams, a datagram and a rejected auth — state left over from (or recycled after) an "
+             "ended authenticated connection must authorise nothing. Non-trivial = script mixes auth actions with proxy actions; distinct = "
              "distinct script."),
     "assumptions": [
         "absence is observed until virtual quiescence plus 1 s virtual settle",
